@@ -82,13 +82,13 @@ impl<R: RtpsReader, T: Type> BuiltinDataReader<R, T> {
                             cache_change.data_value.as_ref(),
                         ) else {
                             tracing::warn!("Failed to deserialize user defined data");
-                            return;
+                            continue;
                         };
                         let Ok(instance_handle) =
                             get_instance_handle_from_dynamic_data(&data_value)
                         else {
                             tracing::warn!("Failed to get instance handle from dynamic_data");
-                            return;
+                            continue;
                         };
                         instance_handle
                     }
@@ -100,7 +100,7 @@ impl<R: RtpsReader, T: Type> BuiltinDataReader<R, T> {
                             KeyHolderType::from_dynamic_type(&T::TYPE, &mut dynamic_members)
                         else {
                             tracing::warn!("Failed to create key holder");
-                            return;
+                            continue;
                         };
 
                         let Ok(data_value) = deserialize_top_level_type(
@@ -108,14 +108,14 @@ impl<R: RtpsReader, T: Type> BuiltinDataReader<R, T> {
                             cache_change.data_value.as_ref(),
                         ) else {
                             tracing::warn!("Failed to deserialize disposed user defined data");
-                            return;
+                            continue;
                         };
 
                         let Ok(instance_handle) =
                             get_instance_handle_from_dynamic_data(&data_value)
                         else {
                             tracing::warn!("Failed to deserialize disposed key user defined data");
-                            return;
+                            continue;
                         };
                         instance_handle
                     }
